@@ -186,7 +186,7 @@ class MLSFirstOrder3D(Equation):
         res[1] = 0.0
         res[2] = 0.0
         res[3] = 0.0
-        augmented_matrix(amls, res, n, 1, aug_mls)
+        augmented_matrix(amls, res, n, 1, n, aug_mls)
         gj_solve(aug_mls, n, 1, res)
         b0 = res[0]
         b1 = res[1]
